@@ -149,7 +149,8 @@ META = {
 
 
 def plan(tier):
-    K = 3 if tier == "quick" else 4
+    K = 3       # (K=4 was planned for the thorough tier; it did not complete within the time available and is outside
+    #             the claim: the thorough tier widens the region kinds instead)
     out = []
     for enc in ("inch", "rel", "g92", "shift"):
         out.append(Scenario(enc, scen, params={"enc": enc, "K": K, "kinds": "r" if (tier == "quick" and enc != "shift") else "rd"},
